@@ -3,6 +3,7 @@ CONSTANTS
   Kind = "fallback"
   Ops = {"o1", "o2"}
   FileOps = {}
+  SrcType = "pipe"
   MaxPend = 2
   MaxH = 2
   ResetProvides = TRUE
